@@ -28,7 +28,10 @@ TIE_THEOREMS = ["Tie.Command.%s" % n for n in
                  "devSpecial2_tie", "devSpecial_rows_traced")] + \
                ["Tie.RoundTrip.%s_roundtrip" % n for n in
                 ("specialParam", "specialNoParam", "shortSpecial", "shortSpecialMask", "initialiseAddr",
-                 "initialiseBroadcast", "initialiseUnaddressed", "devSpecial0", "devSpecial1", "devSpecial2")]
+                 "initialiseBroadcast", "initialiseUnaddressed", "devSpecial0", "devSpecial1", "devSpecial2",
+                 "stdNoParam", "devStd", "devInst")] + \
+               ["Tie.RoundTrip.%s_%s_roundtrip" % (f, sc) for f in ("ev", "evLight", "evOcc")
+                for sc in ("device", "deviceInstance", "deviceGroup", "instanceGroup", "inst")]
 THEOREMS = ["tables_ok2", "decode_construct", "decode_construct_gen", "render_preserved", "no_shared_frame",
             "std_param_rejected", "std_arity_rejected", "destination_rejected", "wrong_kind_rejected",
             "byte_param_rejected", "slice_write_rejects", "std_accepted_is_legal", "dapc_accepted_is_legal",
